@@ -33,6 +33,9 @@ func init() {
 func runC15(w *World, r *Report) {
 	hrDumpEndpointVerbatim(w, r, "R6")
 	hrWildcardIsAWholePart(w, r, "R3")
+	hrFreshDecodeTarget(w, r, "R6")
+	hrTrimBothEnds(w, r, "R3")
+	hrPersistedKeysAllRead(w, r, "R6")
 	hrEveryRunResultParses(w, r, "R6")
 	hrDecodeKeepsAccumulated(w, r, "R6")
 	hrTreeRebuiltOnlyWhenNewer(w, r, "R3")
